@@ -66,7 +66,9 @@ func VH_c14_callbacks() {
 			verifrt.Assert("first-registration-accepted", err == nil)
 		}
 	}
-	if regs[0].on && !regs[1].on && !regs[2].on && !regs[3].on {
+	// the first triple (feature 0, counter1, callback A) is registered a second time - whatever else has been
+	// registered for that counter in between - and must be refused
+	if regs[0].on && verifrt.Concrete(verifrt.Bool("duplicate-registration")) {
 		err := feats[0].AddResponseCallback(model.MsgCounterType(ctrs[0]), vhCbA)
 		verifrt.Reach("duplicate-registration")
 		verifrt.Assert("same-callback-twice-for-one-counter-is-refused", err != nil)
